@@ -304,6 +304,11 @@ func c20Plan(thorough bool) *plan {
 	for _, t := range bind.Types {
 		scs = append(scs, pairScenario(t.QName()+" x "+t.QName(), []*rm.Value{valenum.Distinct(t), valenum.Long(t)}))
 	}
+	// a ring of cross-type pairs (each type with the next one, across protocol boundaries at the seams)
+	for i, t := range bind.Types {
+		u := bind.Types[(i+1)%len(bind.Types)]
+		scs = append(scs, pairScenario(t.QName()+" x "+u.QName(), []*rm.Value{valenum.Distinct(t), valenum.Distinct(u)}))
+	}
 	if thorough {
 		// one cross-protocol pair per pair of packages, using the frame types (they share the checksum registry's read lock)
 		frames := map[string]*rm.Type{}
@@ -330,4 +335,40 @@ func c20Plan(thorough bool) *plan {
 	}
 	p.pre = func(res *shardResult, shard, n int) { globalsInvariant(res, thorough, shard, n) }
 	return p
+}
+
+// replayGlobals re-executes one Encode or Decode and reports which package-level variables changed.
+func replayGlobals(path string, v *ev.Violation) int {
+	t := bind.TypeByQName(v.Replay["type"].(string))
+	val, err := rm.FromJSON(v.Replay["value"], bind.TypeByQName)
+	if t == nil || err != nil {
+		fmt.Println("replay: bad record:", err)
+		return 2
+	}
+	before := map[string]uint64{}
+	hashGlobals(before)
+	msg := bind.MustReal(val)
+	buf := &bytes.Buffer{}
+	func() {
+		defer func() { recover() }()
+		_ = bind.Encode(msg, buf)
+		if v.Replay["call"] == "Decode" {
+			_ = bind.Decode(bind.New(t), buf)
+		}
+	}()
+	after := map[string]uint64{}
+	hashGlobals(after)
+	var changed []string
+	for k, h := range after {
+		if before[k] != h {
+			changed = append(changed, k)
+		}
+	}
+	sort.Strings(changed)
+	if len(changed) == 0 {
+		fmt.Println("replay: property C20 holds on this case (no package-level variable changed)")
+		return 0
+	}
+	fmt.Printf("VIOLATION property=C20 replay=%s\n  global-state-changed: %v\n", path, changed)
+	return 1
 }
